@@ -285,6 +285,118 @@ func facts(repo, goroot string) []fact {
 	} else {
 		add("renewContextCalls", bad("not found"))
 	}
+	// ---- claims conversion glue (ca.json <-> linkedca)
+	if fd := findFunc(auth, "", "claimsToLinkedca"); fd == nil {
+		add("claimsToLinkedcaFlow", bad("not found"))
+	} else {
+		// `if c.X != nil { y = *c.X }` and the fields of the linkedca.Claims literal
+		var flow []string
+		ast.Inspect(fd.Body, func(n ast.Node) bool {
+			switch x := n.(type) {
+			case *ast.IfStmt:
+				if len(x.Body.List) == 1 {
+					if as, ok := x.Body.List[0].(*ast.AssignStmt); ok && len(as.Lhs) == 1 {
+						c, l, r := src(x.Cond), src(as.Lhs[0]), src(as.Rhs[0])
+						if strings.HasSuffix(c, "Renewal!=nil") || strings.HasSuffix(c, "RenewalAfterExpiry!=nil") || strings.HasSuffix(c, "SmallstepExtensions!=nil") {
+							flow = append(flow, c+"=>"+l+"="+r)
+						}
+					}
+				}
+			case *ast.CompositeLit:
+				if src(x.Type) == "linkedca.Claims" {
+					for _, e := range x.Elts {
+						flow = append(flow, "lit:"+src(e))
+					}
+				}
+			}
+			return true
+		})
+		add("claimsToLinkedcaFlow", join(flow))
+	}
+	if fd := findFunc(auth, "", "claimsToCertificates"); fd == nil {
+		add("claimsToCertificatesFlow", bad("not found"))
+	} else {
+		var flow []string
+		ast.Inspect(fd.Body, func(n ast.Node) bool {
+			if x, ok := n.(*ast.CompositeLit); ok && src(x.Type) == "provisioner.Claims" {
+				for _, e := range x.Elts {
+					flow = append(flow, src(e))
+				}
+			}
+			return true
+		})
+		add("claimsToCertificatesFlow", join(flow))
+	}
+	for _, fn := range []struct{ f, call, name string }{{"ProvisionerToLinkedca", "claimsToLinkedca", "typesConvertedToLinkedca"}, {"ProvisionerToCertificates", "claimsToCertificates", "typesConvertedToCertificates"}} {
+		fd := findFunc(auth, "", fn.f)
+		if fd == nil {
+			add(fn.name, bad("not found"))
+			continue
+		}
+		// per case of the type switch: does the provisioner built there get its claims from the conversion?
+		var per []string
+		ast.Inspect(fd.Body, func(n ast.Node) bool {
+			cc, ok := n.(*ast.CaseClause)
+			if !ok || len(cc.List) == 0 {
+				return true
+			}
+			label := src(cc.List[0])
+			label = label[strings.LastIndex(label, ".")+1:]
+			label = strings.TrimPrefix(strings.TrimPrefix(label, "Provisioner_"), "ProvisionerDetails_")
+			if label == "K8SSA" { // linkedca's spelling of the same type
+				label = "K8sSA"
+			}
+			found := false
+			for _, st := range cc.Body {
+				ast.Inspect(st, func(m ast.Node) bool {
+					if c, ok := m.(*ast.CallExpr); ok {
+						if id, ok := c.Fun.(*ast.Ident); ok && id.Name == fn.call {
+							found = true
+						}
+					}
+					// ProvisionerToCertificates converts once, before the switch, into `claims`
+					if kv, ok := m.(*ast.KeyValueExpr); ok && src(kv.Key) == "Claims" && src(kv.Value) == "claims" {
+						found = true
+					}
+					return true
+				})
+			}
+			if found {
+				per = append(per, label)
+			} else {
+				per = append(per, label+":noclaims")
+			}
+			return false
+		})
+		sort.Strings(per)
+		if fn.f == "ProvisionerToCertificates" {
+			// the single conversion in front of the switch
+			first := ""
+			if len(fd.Body.List) > 0 {
+				first = src(fd.Body.List[0])
+			}
+			per = append([]string{"first:" + first}, per...)
+		}
+		add(fn.name, join(per))
+	}
+	// ---- the listener's TLS policy and the routes
+	if caFiles, err := parseDir(filepath.Join(repo, "ca")); err != nil {
+		add("tlsClientAuth", bad(err.Error()))
+	} else if fd := findFunc(caFiles, "CA", "getTLSConfig"); fd == nil {
+		add("tlsClientAuth", bad("getTLSConfig not found"))
+	} else {
+		var sets []string
+		ast.Inspect(fd.Body, func(n ast.Node) bool {
+			if as, ok := n.(*ast.AssignStmt); ok && len(as.Lhs) == 1 {
+				l := src(as.Lhs[0])
+				if l == "serverTLSConfig.ClientAuth" || l == "serverTLSConfig.ClientCAs" {
+					sets = append(sets, l+"="+src(as.Rhs[0]))
+				}
+			}
+			return true
+		})
+		add("tlsClientAuth", join(sets))
+	}
 	// ---- provisioner package
 	prov, err := parseDir(filepath.Join(repo, "authority", "provisioner"))
 	if err != nil {
@@ -373,6 +485,23 @@ func facts(repo, goroot string) []fact {
 				return true
 			})
 			add(h.name, join(args))
+		}
+		if fd := findFunc(apiFiles, "", "Route"); fd == nil {
+			add("renewRoutes", bad("Route not found"))
+		} else {
+			var routes []string
+			ast.Inspect(fd.Body, func(n ast.Node) bool {
+				if c, ok := n.(*ast.CallExpr); ok && len(c.Args) == 3 {
+					if se, ok := c.Fun.(*ast.SelectorExpr); ok && se.Sel.Name == "MethodFunc" {
+						h := src(c.Args[2])
+						if h == "Renew" || h == "Rekey" {
+							routes = append(routes, src(c.Args[0])+src(c.Args[1])+"->"+h)
+						}
+					}
+				}
+				return true
+			})
+			add("renewRoutes", join(routes))
 		}
 		if fd := findFunc(apiFiles, "", "getPeerCertificate"); fd == nil {
 			add("peerCertificateSources", bad("not found"))
